@@ -1750,13 +1750,15 @@ class ListProxy(list):
 
     def remove(self, object):
         with self._trigger():
+            # the stored object may be equal to, but not the same as, the argument
+            stored = list.__getitem__(self, list.index(self, object))
             super().remove(object)
             self._parameter._objects.remove(object)
             if self._parameter.names:
                 copy = self._parameter.names.copy()
                 self._parameter.names.clear()
                 self._parameter.names.update({
-                    k: v for k, v in copy.items() if v is not object
+                    k: v for k, v in copy.items() if v is not stored
                 })
 
     def update(self, objects, **items):
